@@ -18,6 +18,8 @@ pub struct C16;
 ///              the INCLUDE_DIR copy declares a different class)
 ///   variant 4: every include statement is written twice
 ///   variant 5: f0's includes are nested inside `let … in { }`
+///   variant 6: two directories: odd files live in INCLUDE_DIR, even files next to the root; both
+///              directories hold their own common.td, which every file includes by the same text
 fn build(n: usize, edges: u64, variant: u64) -> (Vec<(String, String)>, Vec<Vec<usize>>) {
     let mut files = Vec::new();
     let mut adj = vec![Vec::new(); n];
@@ -30,6 +32,10 @@ fn build(n: usize, edges: u64, variant: u64) -> (Vec<(String, String)>, Vec<Vec<
             // a file that lives only in INCLUDE_DIR cannot see the workspace directory: it gets no includes
             if variant == 2 && i == last && n > 1 {
                 break;
+            }
+            // a file in INCLUDE_DIR cannot name a file next to the root
+            if variant == 6 && i % 2 == 1 && j % 2 == 0 {
+                continue;
             }
             if edges >> (i * n + j) & 1 == 1 {
                 adj[i].push(j);
@@ -50,8 +56,15 @@ fn build(n: usize, edges: u64, variant: u64) -> (Vec<(String, String)>, Vec<Vec<
         for &j in &adj[i] {
             t.push_str(&format!("def d{i}_{j} : K{j};\n"));
         }
-        let path = if i == last && n > 1 && variant == 2 { format!("{INC_DIR}/f{i}.td") } else { format!("f{i}.td") };
+        if variant == 6 {
+            t.push_str(&format!("include \"common.td\"\ndef c{i} : Common{};\n", if i % 2 == 1 { "Inc" } else { "Ws" }));
+        }
+        let path = if (i == last && n > 1 && variant == 2) || (variant == 6 && i % 2 == 1) { format!("{INC_DIR}/f{i}.td") } else { format!("f{i}.td") };
         files.push((path, t));
+    }
+    if variant == 6 {
+        files.push(("common.td".to_string(), "class CommonWs;\n".to_string()));
+        files.push((format!("{INC_DIR}/common.td"), "class CommonInc;\n".to_string()));
     }
     if variant == 3 && n > 1 {
         files.push((format!("{INC_DIR}/f{last}.td"), format!("class WRONG{last};\n")));
@@ -97,7 +110,7 @@ fn check(n: usize, edges: u64, variant: u64) -> Verdict {
         }
     }
     let path_of = |i: usize| -> String {
-        if i == n - 1 && n > 1 && variant == 2 {
+        if (i == n - 1 && n > 1 && variant == 2) || (variant == 6 && i % 2 == 1) {
             format!("{INC_DIR}/f{i}.td")
         } else {
             abs(&format!("f{i}.td"))
@@ -123,7 +136,12 @@ fn check(n: usize, edges: u64, variant: u64) -> Verdict {
 
     // (2) workspace = reachable set
     let got: BTreeSet<String> = diags.keys().filter_map(|f| ws.fs.path_of(*f)).collect();
-    let want: BTreeSet<String> = reach.iter().map(|&i| path_of(i)).collect();
+    let mut want: BTreeSet<String> = reach.iter().map(|&i| path_of(i)).collect();
+    if variant == 6 {
+        for &i in &reach {
+            want.insert(if i % 2 == 1 { format!("{INC_DIR}/common.td") } else { abs("common.td") });
+        }
+    }
     if got != want {
         return fail("C16.reachability", format!("workspace files {got:?}, reference reachable set {want:?}"));
     }
@@ -138,6 +156,12 @@ fn check(n: usize, edges: u64, variant: u64) -> Verdict {
             for p in find_all(text, &format!("include \"f{j}.td\"")) {
                 let s = p + "include ".len();
                 want_links.push((s, s + format!("\"f{j}.td\"").len(), path_of(*j)));
+            }
+        }
+        if variant == 6 {
+            for p in find_all(text, "include \"common.td\"") {
+                let s = p + "include ".len();
+                want_links.push((s, s + "\"common.td\"".len(), if i % 2 == 1 { format!("{INC_DIR}/common.td") } else { abs("common.td") }));
             }
         }
         want_links.sort();
@@ -177,6 +201,9 @@ fn check(n: usize, edges: u64, variant: u64) -> Verdict {
         want_names.insert(class_name(i), 1);
         for j in &adj[i] {
             want_names.insert(format!("d{i}_{j}"), 1);
+        }
+        if variant == 6 {
+            want_names.insert(format!("c{i}"), 1);
         }
         if names != want_names {
             return fail("C16.single-indexing", format!("file {i}: outline {names:?}, expected {want_names:?}"));
@@ -229,7 +256,7 @@ impl Property for C16 {
         "C16"
     }
     fn rule(&self) -> String {
-        "exhaustive: every edge set (self-loops included) over <=3 files (thorough: <=4, all 65536) x 6 variants {plain, +missing include, last file only in INCLUDE_DIR, last file in both directory and INCLUDE_DIR, every include written twice, root's includes nested in a let block}; quick adds 3000 sampled 4-file graphs; thorough adds random graphs over 5..8 files. Each file = class K<i>; its include statements; one def per included file using that file's class. Oracle: set_root_file + index terminate (traversal budget), keys(diagnostics()) = reference reachable set, document links = one per resolvable include statement on its string literal with the reference target, a diagnostic on each unresolvable include and none elsewhere, each declaration once in its file's outline, references(K<j>) = its uses in every reachable includer. distinct = digest; non-trivial = the graph has a cycle or a diamond, or the variant is not plain".into()
+        "exhaustive: every edge set (self-loops included) over <=3 files (thorough: <=4, all 65536) x 7 variants {plain, +missing include, last file only in INCLUDE_DIR, last file in both directory and INCLUDE_DIR, every include written twice, root's includes nested in a let block, two directories that each hold their own common.td included everywhere by the same text}; quick adds 3000 sampled 4-file graphs; thorough adds random graphs over 5..8 files. Each file = class K<i>; its include statements; one def per included file using that file's class. Oracle: set_root_file + index terminate (traversal budget), keys(diagnostics()) = reference reachable set, document links = one per resolvable include statement on its string literal with the reference target, a diagnostic on each unresolvable include and none elsewhere, each declaration once in its file's outline, references(K<j>) = its uses in every reachable includer. distinct = digest; non-trivial = the graph has a cycle or a diamond, or the variant is not plain".into()
     }
     fn assumptions(&self) -> Vec<String> {
         vec!["search order from the documentation: directory of the including file, then $INCLUDE_DIR (set once per process to a virtual directory)".into()]
@@ -238,7 +265,7 @@ impl Property for C16 {
         let mut v = Vec::new();
         for n in 1..=3usize {
             v.push(
-                Family::new(&format!("all-graphs-{n}"), 6, move |variant, _r, emit| {
+                Family::new(&format!("all-graphs-{n}"), 7, move |variant, _r, emit| {
                     for e in 0..(1u64 << (n * n)) {
                         if !emit(json!({"kind": "inc", "n": n, "edges": e, "variant": variant})) {
                             return;
@@ -250,7 +277,7 @@ impl Property for C16 {
         }
         if ctx.tier == Tier::Thorough {
             v.push(
-                Family::new("all-graphs-4", 6 * 16, |chunk, _r, emit| {
+                Family::new("all-graphs-4", 7 * 16, |chunk, _r, emit| {
                     let variant = chunk / 16;
                     let hi = chunk % 16;
                     for lo in 0..(1u64 << 12) {
@@ -270,7 +297,7 @@ impl Property for C16 {
                             e |= 1 << b;
                         }
                     }
-                    if !emit(json!({"kind": "inc", "n": n, "edges": e, "variant": rng.below(6)})) {
+                    if !emit(json!({"kind": "inc", "n": n, "edges": e, "variant": rng.below(7)})) {
                         return;
                     }
                 }
@@ -279,7 +306,7 @@ impl Property for C16 {
             v.push(Family::new("sampled-graphs-4", 12, |_c, rng, emit| {
                 for _ in 0..250 {
                     let e = rng.next() & 0xFFFF;
-                    if !emit(json!({"kind": "inc", "n": 4, "edges": e, "variant": rng.below(6)})) {
+                    if !emit(json!({"kind": "inc", "n": 4, "edges": e, "variant": rng.below(7)})) {
                         return;
                     }
                 }
@@ -292,7 +319,7 @@ impl Property for C16 {
             return Verdict::Skip("malformed-case");
         };
         let n = (n as usize).clamp(1, 8);
-        check(n, e & ((1u64 << (n * n).min(63)) - 1) | if n == 8 { e & (1 << 63) } else { 0 }, v % 6)
+        check(n, e & ((1u64 << (n * n).min(63)) - 1) | if n == 8 { e & (1 << 63) } else { 0 }, v % 7)
     }
     fn shrink_keep(&self) -> &'static [&'static str] {
         &["kind", "n", "edges", "variant"]
